@@ -17,7 +17,9 @@ EXPLANATION = (
     "weight (shared with C17 R17.4) with weights relative to the stream-wide maximum distance; (R12.4) on the merge "
     "branch of all four trackers the candidate first receives VotingType(vt) from its winners entry and is then "
     "merged; the attribute merge copies voting_type and the record reports it; (R12.5) distance_to_weight is d / 1 - "
-    "d and is returned only on the is_ok side.")
+    "d and is returned only on the is_ok side; (R12.7) the positional fallback obeys the positional-metric clauses of "
+    "SORT (C02 R02.1: gate, weight, and the confidence floor applied to the DETECTION's confidence); R12.6 includes "
+    "the wiring of the vote quorum (VisualVoting::new receives visual_min_votes) in both trackers.")
 NOT_DECIDED = ["vote arithmetic and gallery contents for concrete inputs", "feature distance numerics (C16, N/A)"]
 ASSUMPTIONS = ["itertools::tee duplicates the stream", "rustc nightly MIR construction"]
 
@@ -42,6 +44,8 @@ def run(ctx):
     ctx.floor('R12.4', voting_type_travels(ctx, 'R12.4'), 3)
     ctx.rule('R12.5', 'similarity -> distance conversion')
     ctx.floor('R12.5', similarity(ctx, 'R12.5'), 4)
+    ctx.rule('R12.7', 'positional fallback = the positional metric clauses of SORT (gate, detection confidence floor, cost)')
+    ctx.floor('R12.7', M.rule_positional(ctx, 'R12.7'), 14)
 
 
 def gates(ctx, R):
